@@ -6,12 +6,14 @@ package props
 // (i.e. what the default configuration produces).
 
 import (
+	"context"
 	"fmt"
 	"strings"
 	"time"
 
 	lua "github.com/yuin/gopher-lua"
 
+	"verif/internal/glrun"
 	"verif/internal/harness"
 	. "verif/internal/luaref"
 )
@@ -86,8 +88,29 @@ func genGrowCross(thorough bool) Gen {
 	}
 }
 
+// c12LiveContext: "with or without an (undone) context attached" - the context-aware main loop is a
+// hand-maintained copy of the plain one. The call, coroutine, yield-boundary, closure and loop
+// families run on states with a context that is never cancelled; the traces must be the reference
+// interpreter's (what the state without a context produces).
+func c12LiveContext(r *harness.Run) {
+	ctx, cancel := context.WithCancel(context.Background())
+	defer cancel()
+	pc := c03Runner(r)
+	pc.prop = "C12"
+	pc.sigPrefix = "p4/livectx/"
+	inner := pc.extraI
+	pc.extraI = func(m *glrun.Impl) {
+		inner(m)
+		m.L.SetContext(ctx)
+	}
+	th := r.Thorough()
+	pc.runGens(map[string]Gen{"F-yieldacross": genYieldAcross(), "F-hostbody": genHostBody(), "F-cochain": genCoChain(), "F-callmeta": genMetaCall(th), "F-genfor": genGenFor(th), "F-errval": genErrVal(th), "F-select": genSelectUnpack(th), "F-opgrow": genOpGrow(false)},
+		[]string{"F-yieldacross", "F-hostbody", "F-cochain", "F-callmeta", "F-genfor", "F-errval", "F-select", "F-opgrow"})
+}
+
 func c12ProgramFamilies(r *harness.Run) {
 	c12CoroutineNesting(r)
+	c12LiveContext(r)
 	th := r.Thorough()
 	configs := []struct {
 		name string
